@@ -1781,7 +1781,10 @@ class SessionCache(object):
             connection = cache.connection
             assert connection is not None
             cache.connection = None
+            in_transaction = cache.in_transaction
             provider.drop(connection, cache)
+            if in_transaction: throw(ConnectionClosedError,
+                'Transaction cannot be continued because database connection failed')
         else: assert cache.connection is None
         return cache.connect()
     def prepare_connection_for_query_execution(cache):
